@@ -674,7 +674,8 @@ impl Axecutor {
             if self.mem_init_zero(start, length).is_ok() {
                 break;
             }
-            start += length;
+            // Always make progress, also for a zero-length request
+            start += std::cmp::max(length, 1);
         }
 
         Ok(start)
@@ -703,7 +704,8 @@ impl Axecutor {
             if res.is_ok() {
                 break;
             }
-            start += data.len() as u64;
+            // Always make progress, also for a zero-length request
+            start += std::cmp::max(data.len() as u64, 1);
         }
 
         Ok(start)
